@@ -147,7 +147,10 @@ def gen_relative_program(rnd, base):
             if rnd.random() < 0.6:
                 body.append(("LOCALSCOPE", None))
         roll = rnd.random()
-        if roll < 0.2:
+        if roll < 0.07 and not link_last:
+            # a forward skip: the statement right after it is the first one at the new address
+            body.append(apm.dotassign(("bin", "+", ("dot",), apm.num(2 * rnd.randrange(0, 40), rnd.choice([None, "d"])))))
+        elif roll < 0.2:
             body.append(apm.blk(".blkb", apm.num(2 * rnd.randrange(0, 40))))
         elif roll < 0.3:
             # (an operand-less '.word' / '.dword' is one zero word / two: its size does not depend on when it can be evaluated)
